@@ -69,8 +69,15 @@ def _gen(rng, kind, tier):
     return None
 
 
+def _unit(rng):
+    """Length unit of the case: a power of ten in 1e-4..1e4 for a fifth of the cases (a grid in nanometres or in
+    kilometres is as supported as one with cells of order one)."""
+    return float(10.0 ** rng.integers(-4, 5)) if rng.random() < 0.2 else 1.0
+
+
 def _gen_once(rng, kind, tier):
     a, b = _levels(rng)
+    u = _unit(rng)
     thr = str(_thresholds(rng))
     standard = (a, b) == (0.0, 1.0)
     r = rng.random()
@@ -85,7 +92,7 @@ def _gen_once(rng, kind, tier):
     if kind in ("cart1", "cart2", "cart3"):
         dim = int(kind[-1])
         h0 = float(rng.uniform(0.3, 2.5))
-        h = np.round(h0 * rng.uniform(0.93, 1.07, dim), 4)
+        h = np.round(h0 * rng.uniform(0.93, 1.07, dim), 4) * u
         k = int(rng.integers(1, 5)) if dim < 3 else int(rng.integers(1, 3))
         hm = float(h.mean())
         Rmax = {1: 8.0, 2: 8.0, 3: 4.5}[dim]
@@ -113,9 +120,9 @@ def _gen_once(rng, kind, tier):
         periodic = [bool(rng.integers(0, 2)) for _ in range(dim)]
         if dim > 1 and straddle:
             periodic = [True] * dim
-        lo = np.round(rng.uniform(-5, 5, dim), 3)
+        lo = np.round(rng.uniform(-5, 5, dim), 3) * u
         spec = {"family": "cart", "bounds": [[float(lo[i]), float(lo[i] + h[i] * n[i])] for i in range(dim)],
-                "shape": n, "periodic": periodic}
+                "shape": n, "periodic": periodic, "unit": u}
         L = h * np.asarray(n)
         periods = geom.cart_periodicity(spec)
         placed = []
@@ -160,7 +167,7 @@ def _gen_once(rng, kind, tier):
         # strongly polydisperse emulsion: a small droplet as close to a big one as "well separated" allows
         # (its centre is then closer to the big droplet's centre than that droplet's diameter)
         dim = int(rng.choice([1, 2, 2]))
-        hm = float(np.round(rng.uniform(0.5, 1.5), 3))
+        hm = float(np.round(rng.uniform(0.5, 1.5), 3)) * u
         w = float(rng.uniform(1.0, 1.3) * hm)
         Rs = float(rng.uniform(3.0, 3.6) * hm)
         margin = 1 + int(2 * w / hm) + 3
@@ -170,10 +177,10 @@ def _gen_once(rng, kind, tier):
         pad = 4 * w + 3 * hm
         nx = int((2 * Rb + 2 * pad + d - Rb + Rs + pad) / hm) + 2
         ny = int((2 * Rb + 2 * pad) / hm) + 2
-        lo = [float(np.round(rng.uniform(-3, 3), 2)) for _ in range(dim)]
+        lo = [float(np.round(rng.uniform(-3, 3), 2)) * u for _ in range(dim)]
         shape = [nx] + [ny] * (dim - 1)
         spec = {"family": "cart", "bounds": [[lo[a], lo[a] + hm * shape[a]] for a in range(dim)], "shape": shape,
-                "periodic": [bool(rng.integers(0, 2)) for _ in range(dim)]}
+                "periodic": [bool(rng.integers(0, 2)) for _ in range(dim)], "unit": u}
         cb = [lo[0] + pad + Rb] + [lo[a] + hm * shape[a] / 2 for a in range(1, dim)]
         cs = [cb[0] + d] + [cb[a] for a in range(1, dim)]
         dl = [{"pos": cb, "radius": Rb, "width": w}, {"pos": cs, "radius": Rs, "width": w}]
@@ -182,28 +189,28 @@ def _gen_once(rng, kind, tier):
         return {"grid": spec, "droplets": dl, "levels": [a, b], "threshold": thr, "refine_args": refine_args}
     if kind == "sym":
         fam = "polar" if rng.random() < 0.5 else "sph"
-        hr = float(np.round(rng.uniform(0.3, 2.5), 4))
+        hr = float(np.round(rng.uniform(0.3, 2.5), 4)) * u
         R = float(rng.uniform(3.0, 8.0) * hr)
         if rng.random() < 0.3:
             R = float(rng.uniform(8.0, 20.0) * hr)  # finely resolved droplets that fill most of the grid
         w = float(rng.uniform(1.0, 2.0) * hr)
         n = int((R + 4 * w) / hr + rng.integers(4, 16))
-        spec = {"family": fam, "radius": hr * n, "shape": [n]}
+        spec = {"family": fam, "radius": hr * n, "shape": [n], "unit": u}
         if rng.random() < 0.35:
             # annular / shell-shaped grid: the inner radius is not 0 (the centred droplet covers the hole)
-            r_in = float(np.round(rng.uniform(0.1, 0.7) * R, 3))
+            r_in = float(np.round(rng.uniform(0.1, 0.7) * R / u, 3)) * u
             if refine_args.get("adjust_values"):
                 # fitted levels need the inner plateau on the grid (otherwise the inside level is not
                 # determined by the image): keep the hole at least four widths inside the interface
-                r_in = float(np.round(rng.uniform(0.1, 1.0) * max(0.0, R - 4 * w), 3))
+                r_in = float(np.round(rng.uniform(0.1, 1.0) * max(0.0, R - 4 * w) / u, 3)) * u
             if r_in >= 0.5 * hr:
                 spec["radius"] = [r_in, r_in + hr * n]
         dim = 2 if fam == "polar" else 3
         return {"grid": spec, "droplets": [{"pos": [0.0] * dim, "radius": R, "width": w}],
                 "levels": [a, b], "threshold": thr, "refine_args": refine_args}
     if kind == "cyl":
-        hr = float(np.round(rng.uniform(0.3, 2.0), 4))
-        hz = float(np.round(hr * rng.uniform(0.87, 1.13), 4))
+        hr = float(np.round(rng.uniform(0.3, 2.0), 4)) * u
+        hz = float(np.round(hr / u * rng.uniform(0.87, 1.13), 4)) * u
         hm = (hr + hz) / 2
         k = int(rng.integers(1, 3))
         drops = [(float(rng.uniform(3.0, 5.5) * hm), float(rng.uniform(1.0, 2.0) * hm)) for _ in range(k)]
@@ -215,9 +222,9 @@ def _gen_once(rng, kind, tier):
         nz = int(need + rng.integers(4, 14))
         if nz > 90:
             return None
-        z0 = float(np.round(rng.uniform(-5, 5), 3))
+        z0 = float(np.round(rng.uniform(-5, 5), 3)) * u
         spec = {"family": "cyl", "radius": hr * nr, "bounds_z": [z0, z0 + hz * nz], "shape": [nr, nz],
-                "periodic_z": bool(rng.integers(0, 2))}
+                "periodic_z": bool(rng.integers(0, 2)), "unit": u}
         placed = []
         for R, w in drops:
             ok = False
@@ -298,7 +305,7 @@ def run(case, rec):
         common.monitored(rec, "preview:locate_droplets", droplets.locate_droplets, field, **pk)  # not judged
         rec.count("preceded_by_a_coarse_preview_call")
     call = common.monitored(rec, "locate_droplets", droplets.locate_droplets, field, **kwargs)
-    label = f"grid={geom.grid_label(spec)}{spec['shape']} thr={thr} levels={case['levels']} args={case['refine_args']}"
+    label = f"grid={geom.grid_label(spec)}{spec['shape']} unit={spec.get('unit', 1.0):g} thr={thr} levels={case['levels']} args={case['refine_args']}"
     if not rec.check(call.ok, "no-exception",
                      f"locate_droplets raised {common.exc_text(call.exc) if call.exc else ''}; {label}"):
         rec.evaluated(nontrivial=False)
@@ -316,6 +323,7 @@ def run(case, rec):
                         crosses = True
     rec.evaluated(nontrivial=crosses or thr != "0.5" or (a, b) != (0.0, 1.0))
     rec.count(f"family:{geom.grid_label(spec)}")
+    rec.count(f"length_unit:{spec.get('unit', 1.0):g}")
     rec.count(f"threshold:{thr}")
     rec.count("levels:" + ("standard" if (a, b) == (0.0, 1.0) else "mapped") + "|" +
               ("fitted" if case["refine_args"].get("adjust_values") else "supplied"))
